@@ -119,7 +119,8 @@ PROPS["C08"] = dict(
         text=("Real distributed.State replicas fed with the same multiset of real broadcasts under generated permutations, "
               "duplications (1-3x) and batchings, origins with clock offsets 0/±1s/±1h included; for update sets of <= 5 updates ALL "
               "permutations x all contiguous batchings x one duplicated element are enumerated. Oracle: every node lists exactly the "
-              "state of a reference last-writer-wins table built from the decoded updates, and re-delivery changes nothing."),
+              "state of a reference last-writer-wins table built from the decoded updates, and re-delivery changes nothing. Concurrent deliveries: "
+              "two versions of one retained entry handed to a node at the same moment by two goroutines, 20000 keys per run: the later version must stay."),
         note=_CRDT_NOTE + " Session ids are created at most once (they are UUIDs in the broker). Cases where two different updates of one key tie on the timestamp are excluded and counted.",
         technique="property-based testing with a reference LWW model; exhaustive enumeration of delivery schedules for small update sets",
     ),
@@ -139,6 +140,8 @@ PROPS["C08"] = dict(
              shards=dict(quick=8, thorough=16), timeout=dict(quick=300, thorough=1800)),
         dict(name="alldeliveries", pkg="c08", run="TestAllDeliveries", checks=dict(quick=3200, thorough=40000),
              shards=dict(quick=8, thorough=16), timeout=dict(quick=300, thorough=1800)),
+        # two versions of one entry delivered at the same moment by two goroutines (package c20)
+        dict(name="concurrentmerge", pkg="c20", run="TestSharedKeyMerge", shards=dict(quick=4, thorough=8), timeout=dict(quick=300, thorough=1800)),
     ],
 )
 
@@ -147,7 +150,9 @@ PROPS["C09"] = dict(
     manifest=dict(
         text=("Lock-step mirror test: after EACH generated operation on node A the broadcasts queued by that operation are delivered to a "
               "mirror B; A, B and an independent map model of the operation semantics must list the same sessions, subscriptions and retained "
-              "messages, and a bulk operation's broadcast must name every entry the model says it touched. Random histories (1-30 ops, rapid)."),
+              "messages, and a bulk operation's broadcast must name every entry the model says it touched. Random histories (1-30 ops, rapid). "
+              "Concurrent writers: two goroutines publish a retained message (large / small / clear) on the same topic of one node at the same moment; "
+              "a mirror that receives all of the node's broadcasts, in both orders, must list what the node lists."),
         note=_CRDT_NOTE,
         technique="model-based property testing: lock-step differential (origin vs. mirror fed by the broadcasts vs. map model)",
     ),
@@ -159,6 +164,8 @@ PROPS["C09"] = dict(
         dict(name="regress", pkg="c09", run="TestRegress"),
         dict(name="random", pkg="c09", run="TestRandom", checks=dict(quick=160000, thorough=1000000),
              shards=dict(quick=8, thorough=16), timeout=dict(quick=300, thorough=1800)),
+        # two local writers of one retained topic at the same moment: origin vs. mirror (package c20)
+        dict(name="concurrentset", pkg="c20", run="TestSharedKeySet", shards=dict(quick=6, thorough=12), timeout=dict(quick=300, thorough=1800)),
     ],
 )
 
@@ -531,7 +538,11 @@ PROPS["C20"] = dict(
               "(2) Whole in-process broker nodes under concurrent load: publishers (QoS 0/1/2), acknowledging subscribers, churning clients "
               "(connect, subscribe, publish, unsubscribe, DISCONNECT or drop, with wills), a gossip pump with full-state exchanges and expiry sweeps "
               "all at once; afterwards: acknowledged => delivered, nothing foreign, departed sessions left no trace. A race report or a panic is a "
-              "violation (the program is the replay). Schedules are sampled; absence of races is not shown."),
+              "violation (the program is the replay). (3) Shared-key races with a schedule-independent outcome: two versions of one replicated entry "
+              "delivered to a node at the same moment by two goroutines (NotifyMsg / MergeRemoteState) - the node must end with the later version; two "
+              "retained publishes (one large, one small, or a clear) on one topic at the same moment - a mirror fed with all of the node's broadcasts, "
+              "in both orders, must list what the node lists; tens of thousands of keys per run, goroutines released by a spinning barrier. "
+              "Schedules are sampled; absence of races is not shown."),
         note=("Trusted: Go race detector and toolchain, rapid, the harness. Layer 2 runs on an in-memory message log: the commit-log dependency has "
               "unsynchronised reads of its own and is not among the structures the property lists. A race report cannot be shrunk; the whole program is kept."),
         technique="randomized concurrent stress testing of generated programs under the race detector with schedule-independent post-conditions",
@@ -547,5 +558,7 @@ PROPS["C20"] = dict(
         # the in-flight table's concurrent programs live in the C04 package; they are part of this property too
         dict(name="inflight", pkg="c04", run="TestConcurrent", race=True, checks=dict(quick=1600, thorough=8000), shards=dict(quick=4, thorough=16), timeout=dict(quick=300, thorough=1800)),
         dict(name="hammer", pkg="c04", run="TestHammerOneKey", race=True, shards=dict(quick=2, thorough=8), timeout=dict(quick=300, thorough=1800)),
+        # same key from several goroutines, where the outcome is still schedule independent (no race detector: the window is what matters)
+        dict(name="sharedkey", pkg="c20", run="TestSharedKey", shards=dict(quick=5, thorough=10), timeout=dict(quick=300, thorough=1800)),
     ],
 )
